@@ -169,6 +169,38 @@ func init() {
 		out = putSel(out, l, essenceOf(mt), ok)
 		return out
 	})
+	// stampx: args json text, constructor (0 post, 1 actor, 2 activity); result: pub.VerifStamp of the item (or 1 when refused)
+	register("stampx", func(a []int) []int {
+		r := &reader{toks: a}
+		doc := r.text()
+		ctor := r.next()
+		var m map[string]any
+		if err := json.NewDecoder(strings.NewReader(doc)).Decode(&m); err != nil || m == nil {
+			return []int{-1}
+		}
+		o := object.Object(m)
+		var t pub.Tangible
+		var err error
+		switch ctor {
+		case 0:
+			t, err = pub.NewPostFromObject(o, nil)
+		case 1:
+			t, err = pub.NewActorFromObject(o, nil)
+		default:
+			var v *pub.Activity
+			v, err = pub.NewActivityFromObject(o, nil)
+			if err == nil {
+				if _, isFailure := v.Target().(*pub.Failure); isFailure {
+					return []int{1} // an error item is stamped with the wall clock
+				}
+			}
+			t = v
+		}
+		if err != nil {
+			return []int{1}
+		}
+		return append([]int{0}, pub.VerifStamp(t)...)
+	})
 	// args: json text, constructor (0 post, 1 actor, 2 activity, 3 collection, 4 link, 5 pub.New), widths, link numbers
 	// result: built(0 ok / 1 construction refused), elapsed ms of the slowest call, ntexts texts..., nsel (k present link)...
 	register("item", func(a []int) []int {
